@@ -20,7 +20,8 @@ PROPS["C16"] = dict(
                 "split independence of Write, the Writer never produces an unencodable block) hold for all payloads; "
                 "the model is tied to xflate/internal/meta by byte-for-byte correspondence on every run. Round trip, "
                 "DEFLATE silence, size bounds and signature uniqueness are currently decided by the correspondence plus "
-                "implementation oracles on generated inputs (theorems for them are being added)."),
+                "implementation oracles on generated inputs (theorems for them are being added)."
+                " Added: LOSSLESS for EVERY payload and final mode (Meta/RoundTrip.v, 35 s to check): whatever block the encoder model produces, the decoder model - started at any byte-aligned position of any stream - returns exactly the payload and the mode and stops exactly at the end of the block; every block is 12..64 whole bytes. The heart is an invariant of the decoder's rolling 8-bit window (never zero on encoder output: a zero run emits at most three one-bit zero symbols before a prefixed symbol). Not proved: the multi-block Writer/Reader loop on top of the single block, DEFLATE-emptiness of the block, and uniqueness of the signature."),
     level_note=("Trusted: Coq kernel, extraction (ExtrOcamlBasic), OCaml driver, Go harness and generators, "
                 "compress/flate as reference. Model = code only as far as the sampled correspondence shows."),
 )
@@ -43,7 +44,8 @@ PROPS["C01"] = dict(
                 "That this decoder is what flate.Reader computes is checked by correspondence on every run (0 disagreements "
                 "required) and it is cross-checked against zlib and compress/flate; the table-lookup/window refinement "
                 "theorems are layered in Prefix/ and Window/ as they are completed."
-                " Added: TOTALITY of the decoder model (Props flate_decoder_total): on every input success, UnexpectedEOF or Corrupted - no panic, no exhausted loop budget (Flate/Safe.v, Flate/Fuel.v)."),
+                " Added: TOTALITY of the decoder model (Props flate_decoder_total): on every input success, UnexpectedEOF or Corrupted - no panic, no exhausted loop budget (Flate/Safe.v, Flate/Fuel.v)."
+                " Added: every tree the decoder accepts decodes exactly the canonical code of RFC 1951 3.2.2 and is complete (flate_tree_decodes_canonical_code, flate_tree_is_complete; Flate/Canon.v: canonical codes fit their lengths, are prefix-free, the trie decodes each code word to its symbol consuming exactly the word), and the header parser's length lists have pairwise different symbols."),
     level_note=("Trusted: Coq kernel, extraction, OCaml driver, Go harness/generators, zlib + compress/flate as references. "
                 "The claim 'model = flate.Reader' is sampled, not proved."),
 )
@@ -149,7 +151,8 @@ PROPS["C10"] = dict(
                 "exactly the one-shot output and reports the one-shot outcome, zero-length reads lose nothing. Independence "
                 "from the source's shape rests on the bit-reader layer (Prefix/BitReader, in progress) and on the oracle runs "
                 "over 11 source kinds."
-                " Added for xflate.Reader: on an honest stream sequential reading with any sequence of buffer lengths (zero included) delivers the prefix of the content of the total length asked (xflate_sequential_reads_any_buffer_sizes, corollary of the C07 refinement)."),
+                " Added for xflate.Reader: on an honest stream sequential reading with any sequence of buffer lengths (zero included) delivers the prefix of the content of the total length asked (xflate_sequential_reads_any_buffer_sizes, corollary of the C07 refinement)."
+                " Added: the implementation-level model of prefix.Reader refines the abstract bit stream for EVERY script of the source's freedoms (how much more than asked a BufferedReader buffers, how much a raw Read returns) and for a ReadByte-only source (Prefix/ReaderThms.v): the values read do not depend on the source's shape. The model is run against the real prefix.Reader over scripted sources in the C20 check."),
     level_note="Trusted: as C09.",
 )
 PROPS["C11"] = dict(
@@ -164,7 +167,8 @@ PROPS["C11"] = dict(
     level_text=("Proved: for every eof-free decoder program (the RFC 1951 model is one) verdict, output and consumed length are "
                 "independent of trailing bytes; consumption is a prefix of the source; OutputOffset equals bytes delivered "
                 "after every Read for every schedule. That the Go bit readers pull no more bytes than the model's bit "
-                "position is checked by the oracle runs (InputOffset and leftover), not yet by a theorem."),
+                "position is checked by the oracle runs (InputOffset and leftover), not yet by a theorem."
+                " Added: for the implementation-level model of prefix.Reader, after a Flush the source has been advanced over exactly the bytes that hold the bits read, for every data, bit order, source script and history of ReadBits/ReadPads/raw Read/Flush, on both source paths (Prefix/ReaderThms.v); BitsRead is the abstract position after every operation."),
     level_note="Trusted: as C09.",
 )
 
@@ -206,7 +210,8 @@ PROPS["C04"] = dict(
                 "Proved so far: round trips through encoder and decoder models on concrete inputs (text, empty, long runs). "
                 "The universal round-trip theorem needs the stage inverses (RLE1, MTF/RLE2, Huffman, BWT inversion); until "
                 "they are proved the universal claim rests on the correspondence plus three independent decoders."
-                " Added: stage 1 for EVERY input and block size (Bzip2/Rle1.v): the block stored by the Writer's run-length stage with its block-full rules expands, by the Reader's stage, to exactly the input consumed, CRC registers agree, the block fits, progress, the decoder never ends in the rejected four-bytes-no-count state; the block loop is a fold over these blocks and their expansions concatenate to the input. Stages 2-4 (BWT, MTF/RLE2, Huffman) are not proved."),
+                " Added: stage 1 for EVERY input and block size (Bzip2/Rle1.v): the block stored by the Writer's run-length stage with its block-full rules expands, by the Reader's stage, to exactly the input consumed, CRC registers agree, the block fits, progress, the decoder never ends in the rejected four-bytes-no-count state; the block loop is a fold over these blocks and their expansions concatenate to the input. Stages 2-4 (BWT, MTF/RLE2, Huffman) are not proved."
+                " Added: stage 3 for EVERY input (Bzip2/MtfRle2.v): the Reader's MTF / zero-run decoder inverts the Writer's encoder for every value list and every dictionary containing the values, with the exact side condition (4194303 equal bytes are refused), all symbols fit the alphabet, and the Writer's own block dictionary meets the hypotheses."),
     level_note="Trusted: as C03; SA-IS (bzip2/internal/sais) is not modelled: the model sorts rotations, the BWT stage is compared with the code's output.",
 )
 
@@ -389,6 +394,7 @@ PROPS["C20"] = dict(
                 "GeneratePrefixes refuses degenerate input; a kernel-checked finite sweep (alphabets 2..4, counts 0..3, "
                 "limits up to 5 and 27) shows lengths within the limit, complete and monotone. The unbounded Kraft/limit/"
                 "monotonicity theorems and the table-decoder correctness are not yet proved; beyond the sweep they are "
-                "decided by the oracle and the byte-exact models."),
+                "decided by the oracle and the byte-exact models."
+                " Added: (1) the implementation-level model of prefix.Reader (64-bit buffer, wide loads with look-ahead bits, Peek/Discard bookkeeping, ByteReader path, Flush, raw Read after repair D5) REFINES the abstract bit stream for every data, both bit orders, every source script and every history (Prefix/ReaderImpl.v, ReaderSpec.v, ReaderThms.v - 1000 lines, invariant: the buffer is bit for bit a sub-pattern of the stream window at the read position, so re-loading bytes over their own look-ahead copy is harmless); the model is run against the real Reader over scripted sources on every run (primpl, incl. PullBits over-pulls) and the specification is evaluated on those runs (prspec). (2) canonical codes for every length assignment with Kraft sum <= 1 fit their lengths and are prefix-free (Flate/Canon.v). Not proved: that GenerateLengths always yields such an assignment within the limit (finite sweep + oracle), and the Writer side of bit I/O."),
     level_note="Trusted: as C09.",
 )
